@@ -198,6 +198,9 @@ def canon(t, smap):
         return rename(str(t[1]), smap)
     if k == "unit":
         return "()"
+    if k == "call" and t[1] in ("std::convert::From::from", "std::convert::Into::into") and len(t[2]) == 1 and len(t) > 3 and isinstance(t[3], dict) and \
+            (t[3].get("ty") or "") in ("u8", "u16", "u32", "u64", "usize", "i8", "i16", "i32", "i64", "isize"):
+        return "(%s as %s)" % (c(t[2][0]), t[3]["ty"])      # usize::from(x) is x as usize
     if k == "call":
         if t[1] in ("<for>", "<loop>") and len(t) > 3 and isinstance(t[3], dict):
             inner = sorted(canon_path(p, smap) for p in t[3].get("paths", []))
@@ -240,11 +243,59 @@ def rename(s, smap):
 
 def is_log_call(t):
     # log statements, and pure Option / Result / conversion combinators (their effect is in the conditions and the returned term)
-    return isinstance(t, tuple) and t[0] == "call" and (str(t[1]).startswith(("log::", "std::result::Result::", "std::option::Option::", "std::convert::", "<enter>")) or
+    return isinstance(t, tuple) and t[0] == "call" and (str(t[1]).startswith(("log::", "std::result::Result::", "std::option::Option::", "std::convert::", "<enter>", "<index>", "<arith>")) or
                                                         (str(t[1]).startswith("macro::") and str(t[1]).split("::")[-1] in LOG_MACROS))
 
 
+def result_match_as_try(p):
+    """`match x { Ok(v) => .., Err(e) => Err(e) }` written out is `x?` : conditions on Ok/Err of a call become <is_err> tests, the Ok payload
+    becomes ok?(x), and an exit that re-returns the very same error becomes the `?` exit."""
+    from ..terms import opt_polarity
+    conds, subst = [], []
+    for c in p.conds:
+        if c[0] == "match" and isinstance(c[1], tuple) and c[1][0] in ("call", "await") and ("::Ok" in c[2] or "::Err" in c[2] or "Ok(" in c[2] or "Err(" in c[2]):
+            is_okpat = ("Ok(" in c[2] or "::Ok" in c[2]) and "Err(" not in c[2].split("Ok")[0]
+            neg = c[2].startswith("!") or c[3] is False
+            ok_side = is_okpat != neg
+            conds.append(("if", ("call", "<is_err>", [c[1]], None), not ok_side))
+            subst.append(c[1])
+        else:
+            conds.append(c)
+
+    def rw(t):
+        if not isinstance(t, tuple):
+            return t
+        if t[0] == "proj" and any(t[1] is x or t[1] == x for x in subst) and str(t[2]).startswith("Ok."):
+            return ("ok?", t[1])
+        if t[0] == "call":
+            return (t[0], t[1], [rw(a) for a in t[2]]) + tuple(t[3:])
+        if t[0] == "ctor":
+            return ("ctor", t[1], {k: rw(v) for k, v in t[2].items()} if isinstance(t[2], dict) else [rw(a) for a in t[2]])
+        if t[0] in ("field", "elem", "ok?", "err?", "await"):
+            return (t[0], rw(t[1])) + tuple(t[2:])
+        if t[0] == "proj":
+            return ("proj", rw(t[1]), t[2])
+        if t[0] in ("un", "cast"):
+            return (t[0], t[1], rw(t[2]))
+        if t[0] == "bin":
+            return ("bin", t[1], rw(t[2]), rw(t[3]))
+        if t[0] == "index":
+            return ("index", rw(t[1]), rw(t[2]))
+        if t[0] in ("tuple", "array"):
+            return (t[0], [rw(a) for a in t[1]])
+        return t
+    ret, kind = rw(p.ret), p.kind
+    if kind in ("fall", "return") and ret[0] == "ctor" and ret[1].endswith("::Err") and isinstance(ret[2], list) and len(ret[2]) == 1:
+        e = ret[2][0]
+        if e[0] == "proj" and str(e[2]).startswith("Err.") and any(e[1] is x or e[1] == x for x in subst):
+            ret, kind = ("err?", e[1]), "try"
+    q = type("P", (), {})()
+    q.conds, q.trace, q.ret, q.kind = conds, [rw(t) if isinstance(t, tuple) else t for t in p.trace], ret, kind
+    return q
+
+
 def canon_path(p, smap):
+    p = result_match_as_try(p)
     conds = []
     for cnd in p.conds:
         if cnd[0] == "if":
@@ -335,6 +386,9 @@ def check(run, views, tier):
         for path, body in F.hir.items():
             if "::tests::" in path or body["kind"] not in ("Fn", "AssocFn"):
                 continue
+            from ..symx import known_functions
+            if path not in known_functions():
+                continue        # a helper introduced later: it is inlined into its callers, which are compared
             if any(m in path for m in T["sync_markers"]) and not any(a in path for a in T["async_markers"]):
                 run.ob("R-TWIN", "blocking fn %s has an async twin" % path, path in async_sibs, "no async sibling: the two front ends differ in API", site(body),
                        key="R-TWIN|%s|no-async-twin" % path)
